@@ -68,6 +68,9 @@ func (ps *PartialSignature[P, B, S]) UnmarshalCBOR(data []byte) error {
 	if err != nil {
 		return errs.Wrap(err).WithMessage("failed to unmarshal dkls23 PartialSignature")
 	}
+	if dto == nil {
+		return ErrNil.WithMessage("PartialSignature DTO is nil")
+	}
 	ps2, err := NewPartialSignature(dto.R, dto.U, dto.W)
 	if err != nil {
 		return errs.Wrap(err).WithMessage("failed to create dkls23 PartialSignature")
